@@ -77,7 +77,13 @@ func collect(fset *token.FileSet, path string, f *ast.File) []mutant {
 					add(st.Pos(), "continue-to-break", "continue -> break", func() { s.Tok = token.BREAK })
 				}
 			case *ast.IfStmt:
-				if !isVhook(s.Cond) {
+				redundantGuard := false
+				if sel, ok := s.Cond.(*ast.SelectorExpr); ok && sel.Sel.Name == "HadRuntimeError" {
+					// `if utils.HadRuntimeError { return ... }` after a sub-evaluation: eval itself returns at
+					// once when the flag is set, so disabling one of these guards is (nearly always) equivalent
+					redundantGuard = true
+				}
+				if !isVhook(s.Cond) && !redundantGuard {
 					cond := s.Cond
 					add(s.Pos(), "if-true", "condition forced true", func() { s.Cond = ast.NewIdent("true") })
 					add(s.Pos(), "if-false", "condition forced false", func() { s.Cond = ast.NewIdent("false") })
